@@ -22,6 +22,8 @@ type bigF struct {
 	bits  int  // |num| < 2^bits
 	prec  uint // precision of the symbolic object (0 = unset)
 	mp    *expr
+	// quotient form of a non fixed-point value: sv = qn/qd with integer terms (qd != 0 on the path)
+	qn, qd *expr
 }
 
 type bigI struct {
@@ -401,7 +403,16 @@ func (i *interpreter) bigQuo(z, x, y bigF) bigF {
 			}
 		}
 	}
-	return i.roundTo(bigF{sv: sv}, p)
+	res := bigF{sv: sv}
+	// remember an integer quotient form when both operands are fixed-point
+	if xn, xsc, _, ok1 := x.fixed(); ok1 {
+		if yn, ysc, _, ok2 := y.fixed(); ok2 {
+			// (xn/2^xsc) / (yn/2^ysc) = (xn*2^ysc) / (yn*2^xsc)
+			res.qn = mkMul(mkInt(pow2(ysc)), xn)
+			res.qd = mkMul(mkInt(pow2(xsc)), yn)
+		}
+	}
+	return i.roundTo(res, p)
 }
 
 // bigCmp returns the term / constant for x.Cmp(y).
@@ -458,6 +469,12 @@ func truncTermsF(x bigF) (tr *expr, acc *expr) {
 		zero := mkInt64(0)
 		tr = mkIte(mkGe(n, zero), mkDiv(n, d), mkNeg(mkDiv(mkNeg(n), d)))
 		acc = mkIte(mkEq(mkMod(n, d), zero), mkInt64(0), mkIte(mkGt(n, zero), mkInt64(-1), mkInt64(1)))
+		return
+	}
+	if x.qn != nil {
+		// truncation of an integer quotient in integer arithmetic
+		tr = tdiv(x.qn, x.qd)
+		acc = mkIte(mkEq(trem(x.qn, x.qd), mkInt64(0)), mkInt64(0), mkIte(mkEq(mkLt(x.qn, mkInt64(0)), mkLt(x.qd, mkInt64(0))), mkInt64(-1), mkInt64(1)))
 		return
 	}
 	return truncTerms(x.sv)
